@@ -8,7 +8,7 @@ NEEDS_SHIM = True
 THOROUGH_ROUNDS = 2
 RULE = ("real binary `new --vanity-prefix P`: (a) single-threaded (-j 0) under the getentropy shim with an explicit entropy stream, compared with the Lean model of the "
         "search (first candidate of the stream whose selected account matches): all 16 single digits in both cases, 2-digit prefixes in lower/upper/mixed case, "
-        "with/without vanity password / account index / hd path, lengths 12/15/24; (b) multi-threaded (-j 1,2,16 and default) with real entropy, prefixes of 1..3 digits, repeated "
+        "with/without vanity password / account index / hd path, lengths 12/15/24; random prefixes of 3..7 and 39..41 digits over 40/60-entry streams (no entry matches: the command must fail), prefixes of 1..9, 39, 40 digits cut from the address of a chosen stream entry (that entry must be printed); every success is judged against the statement (cli.new_vanity judge); (b) multi-threaded (-j 1,2,16 and default) with real entropy, prefixes of 1..3 digits, repeated "
         "to vary interleavings: the printed phrase must parse, have L words, and `address` with the same selector must start with the prefix (case-insensitive); "
         "non-hex / malformed prefixes must be refused; non-trivial = distinct (prefix, selector, threads, run); the schedule quantifier is only sampled on the real binary")
 EXHAUSTIVE_SWEEPS = {"quick": ["all 16 hex digits x {lower, upper} as 1-digit prefixes (model-compared)", "every printable ASCII character x 5 positions of the prefix text (acceptance only)"], "thorough": ["all 16 hex digits x {lower, upper} as 1-digit prefixes (model-compared)"]}
@@ -27,11 +27,34 @@ def gen(rng, tier):
                           runner="cli", meta={"threads": 0}))
     two = ["ab", "AB", "aB", "0f", "F0", "7c", "C7", "e1"] if tier == "thorough" else ["ab", "AB", "aB"]
     for p in two:
-        cases.append(Case("cli.new_vanity %s %s - default %s" % (hx("12"), hx("0x" + p), stream(rng, 2800, 16)), tags=("model", "2-digit"), runner="cli", meta={"threads": 0, "timeout": 300}))
+        cases.append(Case("cli.new_vanity %s %s - default %s" % (hx("12"), hx("0x" + p), stream(rng, 2800 if tier == "thorough" else 200, 16)), tags=("model", "2-digit"), runner="cli", meta={"threads": 0, "timeout": 300}))
     for L, nb in ((15, 20), (24, 32)):
         cases.append(Case("cli.new_vanity %s %s - default %s" % (hx(str(L)), hx("0x" + rng.choice("0123456789abcdef")), stream(rng, 250, nb)), tags=("model", "length:%d" % L), runner="cli", meta={"threads": 0}))
     for sel, pw in [("idx:" + hx("3"), "-"), ("path:" + hx("m/44'/60'/0'/0/7"), "-"), ("default", hx("vänity pass")), ("idx:" + hx("2147483647"), hx("x")), ("path:" + hx("m/0"), hx("p"))]:
         cases.append(Case("cli.new_vanity %s %s %s %s %s" % (hx("12"), hx("0x" + rng.choice("0123456789abcdefABCDEF")), pw, sel, stream(rng, 250, 16)), tags=("model", "selector"), runner="cli", meta={"threads": 0}))
+    # longer prefixes over short streams.  (a) a random prefix of 3..7, 39, 40, 41 digits: the address of no entry starts
+    # with it (with overwhelming probability), so the source runs dry and the command fails — a matcher that looks at only
+    # part of the prefix finds a "match" among 60 entries instead.  (b) the prefix is cut from the address of entry k (computed
+    # by the model), in either case, with odd and even digit counts up to the full 40: entry k must be the one printed.
+    from vlib import bip39 as _b
+    for d in (3, 4, 5, 6, 7, 39, 40, 41):
+        for _ in range(2 if tier == "quick" else 6):
+            pre = "0x" + "".join(rng.choice("0123456789abcdefABCDEF") for _ in range(d))
+            cases.append(Case("cli.new_vanity %s %s - default %s" % (hx("12"), hx(pre), stream(rng, 60 if tier == "thorough" else 40, 16)), tags=("model", "long-prefix-no-match", "digits:%d" % d), runner="cli", meta={"threads": 0}))
+    ents = [bytes(rng.getrandbits(8) for _ in range(16)) for _ in range(48)]
+    lines = ["cli.address %s - default" % hx(" ".join(_b.from_entropy(e))) for e in ents]
+    addrs = []
+    for o in core.run_driver("model", lines):
+        parts = o.split(" ")
+        addrs.append(bytes.fromhex(parts[1]).decode().strip()[2:] if parts[0] == "ok" and len(parts) == 2 else None)
+    st = ",".join(e.hex() for e in ents)
+    for k in ([5, 17, 33] if tier == "quick" else range(3, 48, 4)):
+        if not addrs[k]:
+            continue
+        for d in ((1, 2, 3, 4, 5, 8, 39, 40) if tier == "quick" else (1, 2, 3, 4, 5, 7, 8, 9, 39, 40)):
+            pre = addrs[k][:d]
+            pre = rng.choice([pre.lower(), pre.upper(), pre])
+            cases.append(Case("cli.new_vanity %s %s - default %s" % (hx("12"), hx("0x" + pre), st), tags=("model", "prefix-of-entry", "digits:%d" % d), runner="cli", meta={"threads": 0}))
     # refused prefixes / selectors (no search happens)
     for bad in ["", "0x", "ab", "0xg", "0xG1", "0x1g", "x1", "0X1", "0x é", "0x-1", " 0x1", "0x1 ", "0xé"]:
         st = stream(rng, 3, 16)
